@@ -74,7 +74,7 @@ def run(ctx):
     s, nlines = drive_and_judge(ctx, sp, 0 if ctx.quick else 40000)
     ctx.cov.update(dict(
         states=mc["states"], transitions=mc["transitions"], traces_validated_against_impl=s["vectors"],
-        samples=s["samples"][:4], model_cfg=cfg, vectors_emitted=mc["emitted"], vectors_replayed=s["vectors"],
+        samples=(s.get("samples") or [])[:4], model_cfg=cfg, vectors_emitted=mc["emitted"], vectors_replayed=s["vectors"],
         per_family=s["families"], outcome_counts=s["outcomes"], events=nlines, drift=0,
         panics_observed=s["panics"], monitor_formulas=MON_FORMULAS, exhaustive=(s["vectors"] == n),
         model_invariants=["RefDag", "RefInstall", "RefUpdate"],
@@ -98,5 +98,5 @@ def replay(ctx, path):
         sc = json.load(f)
     sp = ctx.write_scenarios([sc])
     s, nlines = drive_and_judge(ctx, sp, 0)
-    ctx.cov.update(dict(states=1, transitions=1, traces_validated_against_impl=s["vectors"], samples=s["samples"][:1] or [sc],
+    ctx.cov.update(dict(states=1, transitions=1, traces_validated_against_impl=s["vectors"], samples=(s.get("samples") or [sc])[:1],
                         events=nlines, outcome_counts=s["outcomes"]))
